@@ -310,6 +310,19 @@ def run(ctx):
             nb += 1
         if "replace_params" in ci.methods:
             check_replace_params(ctx, ci, ci.methods["replace_params"])
+    # a modifier that wraps another gate must hand binding down to the wrapped gate (so that the refusal of Power /
+    # Exponential is not bypassed when they sit under a control or a dagger): resolved through the MRO and class-level
+    # aliases (`bind = Gate.bind`), the effective bind of ControlledGate / Dagger has to call `self.wrapped_gate.bind`
+    for name in REWRAP:
+        ci = repo.cls(f"{GATES}:{name}")
+        eff = repo.find_method(ci, "bind")
+        own = "bind" in ci.methods
+        if eff is None:
+            ctx.violation(R1, f"{GATES}:{name}.bind:delegates", f"{name} has no bind at all", ci)
+            continue
+        delegates = any(isinstance(c, ast.Call) and norm(c.func) == "self.wrapped_gate.bind" for c in body_walk(eff.node))
+        if not own:
+            ctx.check(delegates, R1, f"{GATES}:{name}.bind:delegates", f"{name}'s effective bind ({eff.qualname}) binds the wrapped gate", f"{name} no longer defines bind; the one it inherits ({eff.qualname}) re-parametrises the gate through replace_params instead of calling self.wrapped_gate.bind, so a Power or Exponential under a {name} is 'bound' without the NotImplementedError the bare wrapper raises", ci)
     for name in REFUSING:
         if "bind" not in repo.cls(f"{GATES}:{name}").methods:
             ctx.violation(R1, f"{GATES}:{name}.bind", f"{name} has no bind of its own: it inherits a binding that cannot be correct for it", repo.cls(f"{GATES}:{name}"))
